@@ -409,7 +409,7 @@ def pool_dist(rs):
             d["woken_polls"] += o.endswith("w")
     return d
 
-POOL_STREAM = {"amplify": lambda r: pool_amplify(r), "name": "pool", "quick": 6000, "thorough": 300000, "sep": ";", "batch": 4000, "keep": ["mark"],
+POOL_STREAM = {"amplify": lambda r: pool_amplify(r), "name": "pool", "quick": 6000, "thorough": 120000, "sep": ";", "batch": 4000, "keep": ["mark"],
                "nontrivial": pool_nontrivial, "distribution": pool_dist}
 def pool_amplify(r):
     """A case on which model and pool disagree without the specification objecting (a bookkeeping difference, say): variants of it
@@ -668,7 +668,7 @@ PROPS = {
                      "Hd.E2E.C01_nothing_lost", "Hd.E2E.C01_quiescent_all_delivered", "Hd.E2E.C01_located_can_move",
                      "Hd.E2E.inv_step", "Hd.E2E.inv_run", "Hd.E2E.noLoss_step", "Hd.E2E.C01_busy_handout_crosstalks"],
         "streams": [
-            {"name": "e2e", "quick": 1500, "thorough": 100000, "sep": ";", "batch": 2000,
+            {"name": "e2e", "quick": 1500, "thorough": 60000, "sep": ";", "batch": 2000,
              "nontrivial": e2e_nontrivial, "distribution": e2e_dist},
         ],
         "rule": "scenarios of 2-10 concurrent requests through the real Client service (Client::builder, pool on/off, custom streaming request bodies and, one in four, hyperdriver's own Body as request and response body) "
